@@ -193,6 +193,12 @@ pub struct Spec {
     pub max_len: usize,
     pub sinks: &'static [Sink],
     pub allow_forget: bool,
+    /// C06: enumerate injected faults (exhaustive shapes) / arm random faults (histories)
+    pub fault_enum: bool,
+    /// C06: replacement iterators may misreport their length
+    pub allow_lies: bool,
+    /// iterator calls made past exhaustion (fused check)
+    pub extra_calls: usize,
     /// known-defect triggers to steer around (counted), see known_findings.json / DESIGN §5
     pub avoid: u32,
 }
@@ -219,6 +225,15 @@ pub struct World<C: Cfg> {
     pub avoided: u32,
     pub step_no: u32,
     pub classes: Vec<&'static str>,
+    /// fault-injection mode: an injected panic may fire inside the next operation
+    pub fault_mode: bool,
+    pub faults_fired: u32,
+    /// the operation panics by itself (expected or not): no second panic is injected into it
+    pub op_panicked: bool,
+    /// slots in use (2 for one-step shapes, 3 for histories)
+    pub n_slots: usize,
+    /// a handle / iterator / item was leaked with mem::forget in the last operation
+    pub forgot: bool,
     _p: PhantomData<C>,
 }
 
@@ -248,12 +263,19 @@ impl<C: Cfg> World<C> {
             avoided: 0,
             step_no: 0,
             classes: Vec::new(),
+            fault_mode: false,
+            faults_fired: 0,
+            op_panicked: false,
+            n_slots: 2,
+            forgot: false,
             _p: PhantomData,
         })
     }
 
+    /// No further judgement possible: a violation was recorded, or (fault mode) the injected
+    /// fault fired and the model is out of date until `after_fault` resynchronises it.
     pub fn dead(&self) -> bool {
-        self.viol.is_some() || self.desync.is_some()
+        self.viol.is_some() || self.desync.is_some() || (self.fault_mode && reg(|r| r.fault_fired))
     }
 
     pub fn fail(&mut self, monitor: u32, sig: impl Into<String>, msg: impl Into<String>) {
@@ -625,6 +647,9 @@ impl<C: Cfg> World<C> {
 
     /// `mon`: monitors (besides validity) that own this expectation
     pub fn expect_panic_m<R>(&mut self, mon: u32, ctx: &str, r: &Result<R, Panicked>, must_panic: bool, why: &str) {
+        if must_panic || r.is_err() {
+            self.op_panicked = true;
+        }
         match (r, must_panic) {
             (Ok(_), true) => self.fail(mon, format!("{}:no-panic", ctx), format!("{}: returned normally although it must panic ({})", ctx, why)),
             (Err(Panicked::Msg(m)), false) => self.fail(mon | MON_VALID, format!("{}:panic", ctx), format!("{}: panicked unexpectedly: {}", ctx, m)),
